@@ -83,6 +83,7 @@ negative count - not modelled, stated as hypotheses), truthiness: int `≠ 0`, l
 """
 import ast
 import os
+import re
 
 from harness.gen_tables import HEADER
 
@@ -297,6 +298,8 @@ class Tr(object):
         self.ntmp = 0
         self.uses_fuel = False
         self.fn = None
+        self.nloops = 0
+        self.aux = []                 # definitions of loop bodies, emitted in front of the function
 
     # ---- helpers -------------------------------------------------------------
     def callee(self, qual):
@@ -1039,12 +1042,12 @@ class Tr(object):
         return has_brk, has_ret, comps, tys
 
     def unpack(self, pad, st, comps, tys, skip=()):
-        out = ""
-        for i, (c, t) in enumerate(zip(comps, tys)):
-            if c in skip:
-                continue
-            out += "%slet %s : %s := %s\n" % (pad, c, t, proj(st, i, len(comps)))
-        return out
+        """bind the components of the loop state `st` (an expression) to their names: a `match` on the tuple
+        (so that no sub-term is duplicated when a proof unfolds the definition)"""
+        if len(comps) == 1:
+            return "" if comps[0] in skip else "%slet %s : %s := %s\n" % (pad, comps[0], tys[0], st)
+        pat = ", ".join("_" if c in skip else c for c in comps)
+        return "%smatch %s with\n%s| (%s) =>\n" % (pad, st, pad, pat)
 
     def after_loop(self, pad, ind, st, comps, tys, has_brk, has_ret, orelse, rest, tail):
         """code after a loop whose final state is bound to `st`"""
@@ -1066,10 +1069,22 @@ class Tr(object):
             return text + "%sif brk_ = true then\n%s\n%selse\n%s" % (pad, a, pad, b)
         return text + self.block(orelse + cont, ind, tail)
 
+    def captured(self, scope, comps, text):
+        """variables of the enclosing scope that the translated loop body `text` mentions (parameters of its definition)"""
+        return [v for v in scope if v not in comps
+                and re.search(r"(?<![\w.])%s(?![\w])" % re.escape(v), text)]
+
+    def new_loop(self, s):
+        self.nloops += 1
+        return "%s_loop%d" % (self.lean_fn, self.nloops)
+
     def for_stmt(self, s, rest, ind, tail):
+        """`for` loop: the loop body becomes a definition `<f>_loop<k> <captured variables> st_ it_` of its own
+        (so that companion proofs can talk about it), the loop is `List.foldl` of it"""
         pad = "  " * ind
-        k = len(self.loops) + 1
-        st, it = "st%d_" % k, "it%d_" % k
+        if self.narrow:
+            raise NotImplementedError("loop inside a branch that narrows an optional")
+        name = self.new_loop(s)
         lst, ety = self.iter_expr(s.iter)
         my_pending, self.pending = self.pending, []
         if isinstance(s.target, ast.Name):
@@ -1106,38 +1121,43 @@ class Tr(object):
         init = Loop(comps).tuple("false", "(none : Option (%s))" % self.full_ret_ty)
         saved = dict(self.lty)
         self.loops.append(Loop(comps))
-        pad2 = pad + "    "
-        body = self.unpack(pad2, st, comps, tys, skip=("ret_",) if has_ret else ())
+        body = self.unpack("  ", "st_", comps, tys, skip=("ret_",) if has_ret else ())
         if has_brk:
-            body += "%sif brk_ = true then %s else\n" % (pad2, st)
+            body += "  if brk_ = true then st_ else\n"
         # bind the loop variables
         if len(tnames) == 1:
             if tnames[0] != "_":
-                body += "%slet %s : %s := %s\n" % (pad2, ident(tnames[0]), ety, it)
+                body += "  let %s : %s := it_\n" % (ident(tnames[0]), ety)
                 self.lty[ident(tnames[0])] = ety
         else:
             for i, (nm, t) in enumerate(zip(tnames, ecs)):
                 if nm != "_":
-                    body += "%slet %s : %s := %s\n" % (pad2, ident(nm), t, proj(it, i, len(tnames)))
+                    body += "  let %s : %s := %s\n" % (ident(nm), t, proj("it_", i, len(tnames)))
                     self.lty[ident(nm)] = t
-        body += self.block(s.body, ind + 2, self.loops[-1].tuple("false"))
+        body += self.block(s.body, 1, self.loops[-1].tuple("false"))
         self.loops.pop()
         self.lty = saved
+        caps = self.captured(saved, comps, body)
+        self.aux.append("/-- body of the `for` loop at line %d of `%s` -/\ndef %s %s(st_ : %s) (it_ : %s) : %s :=\n%s\n" % (
+            s.lineno - self.fn.lineno + 1, self.qual, name, "".join("(%s : %s) " % (v, saved[v]) for v in caps),
+            sty, ety, sty, body))
         text = pre
         if guard:
-            text += "%slet l%d_ : List %s := %s\n" % (pad, k, paren(ety), lst)
-            lst = "l%d_" % k
+            text += "%slet l_ : List %s := %s\n" % (pad, paren(ety), lst)
+            lst = "l_"
             text += "%sif %s.isEmpty = true then %s else\n" % (pad, lst, self.exit_with("(Except.error \"UnboundLocalError\")"))
-        text += "%slet %s : %s := List.foldl (fun (%s : %s) (%s : %s) =>\n%s) %s %s\n" % (
-            pad, st, sty, st, sty, it, ety, body, init, lst)
-        text += self.after_loop(pad, ind, st, comps, tys, has_brk, has_ret, s.orelse, rest, tail)
+        fold = "(List.foldl (%s) %s %s)" % (" ".join([name] + caps), init, lst)
+        text += self.after_loop(pad, ind, fold, comps, tys, has_brk, has_ret, s.orelse, rest, tail)
         self.pending = my_pending
         return self.wrap_pending(pad, text)
 
     def while_stmt(self, s, rest, ind, tail):
+        """`while` loop: condition and body become definitions `<f>_loop<k>_cond`, `<f>_loop<k>`; the loop is
+        `pyWhile cond body fuel init`"""
         pad = "  " * ind
-        k = len(self.loops) + 1
-        st = "st%d_" % k
+        if self.narrow:
+            raise NotImplementedError("loop inside a branch that narrows an optional")
+        name = self.new_loop(s)
         has_brk, has_ret, comps, tys = self.state_setup(s)
         if not comps:
             raise NotImplementedError("loop without effect")
@@ -1146,32 +1166,40 @@ class Tr(object):
         forever = isinstance(s.test, ast.Constant) and s.test.value is True
         self.uses_fuel = True
         saved = dict(self.lty)
-        pad2 = pad + "    "
+        where = "at line %d of `%s`" % (s.lineno - self.fn.lineno + 1, self.qual)
         if forever and not has_brk:
             # an infinite loop: only meaningful in a generator, observed through its first `fuel` iterations
             if not self.ret.startswith("gen:") or rest or s.orelse or self.loops:
                 raise NotImplementedError("`while True` without break outside a generator / followed by code")
             self.loops.append(Loop(comps))
-            body = self.unpack(pad2, st, comps, tys) + self.block(s.body, ind + 2, self.loops[-1].tuple())
+            body = self.unpack("  ", "st_", comps, tys) + self.block(s.body, 1, self.loops[-1].tuple())
             self.loops.pop()
             self.lty = saved
-            text = "%slet %s : %s := List.foldl (fun (%s : %s) (_ : Nat) =>\n%s) %s (List.range fuel)\n" % (
-                pad, st, sty, st, sty, body, init)
-            return text + self.unpack(pad, st, comps, tys) + self.block([], ind, tail)
+            caps = self.captured(saved, comps, body)
+            self.aux.append("/-- body of the `while True` loop %s -/\ndef %s %s(st_ : %s) (_ : Nat) : %s :=\n%s\n" % (
+                where, name, "".join("(%s : %s) " % (v, saved[v]) for v in caps), sty, sty, body))
+            fold = "(List.foldl (%s) %s (List.range fuel))" % (" ".join([name] + caps), init)
+            return self.unpack(pad, fold, comps, tys) + self.block([], ind, tail)
+        if not self.is_exc():
+            raise NotImplementedError("a while loop in a function not declared exc: (fuel may run out)")
         self.cond_depth += 1
         c = "true" if forever else self.b(s.test)
         self.cond_depth -= 1
-        cond = self.unpack(pad2, st, comps, tys, skip=("ret_",)) + pad2 + (("(!brk_ && %s)" % c) if has_brk else c)
+        cond = self.unpack("  ", "st_", comps, tys, skip=("ret_",)) + "  " + (("(!brk_ && %s)" % c) if has_brk else c)
         self.loops.append(Loop(comps))
-        body = self.unpack(pad2, st, comps, tys, skip=("ret_", "brk_")) + self.block(s.body, ind + 2, self.loops[-1].tuple("false"))
+        body = self.unpack("  ", "st_", comps, tys, skip=("ret_", "brk_")) + self.block(s.body, 1, self.loops[-1].tuple("false"))
         self.loops.pop()
         self.lty = saved
+        ccaps = self.captured(saved, comps, cond)
+        caps = self.captured(saved, comps, body)
+        self.aux.append("/-- condition of the `while` loop %s -/\ndef %s_cond %s(st_ : %s) : Bool :=\n%s\n" % (
+            where, name, "".join("(%s : %s) " % (v, saved[v]) for v in ccaps), sty, cond))
+        self.aux.append("/-- body of the `while` loop %s -/\ndef %s %s(st_ : %s) : %s :=\n%s\n" % (
+            where, name, "".join("(%s : %s) " % (v, saved[v]) for v in caps), sty, sty, body))
         fuel_exit = self.exit_with("(Except.error \"fuel\")")
-        if not self.is_exc():
-            raise NotImplementedError("a while loop in a function not declared exc: (fuel may run out)")
-        text = "%smatch pyWhile (fun (%s : %s) =>\n%s) (fun (%s : %s) =>\n%s) fuel %s with\n%s| none => %s\n%s| some %s =>\n" % (
-            pad, st, sty, cond, st, sty, body, init, pad, fuel_exit, pad, st)
-        text += self.after_loop(pad + "  ", ind + 1, st, comps, tys, has_brk, has_ret, s.orelse, rest, tail)
+        text = "%smatch pyWhile (%s) (%s) fuel %s with\n%s| none => %s\n%s| some st_ =>\n" % (
+            pad, " ".join([name + "_cond"] + ccaps), " ".join([name] + caps), init, pad, fuel_exit, pad)
+        text += self.after_loop(pad + "  ", ind + 1, "st_", comps, tys, has_brk, has_ret, s.orelse, rest, tail)
         return self.wrap_pending(pad, text)
 
 
@@ -1284,6 +1312,9 @@ def translate(repo, rel, fname, ptypes, ret, done=None):
     tr.lty = lty
     tr.ret = ret
     tr.fn = fn
+    tr.qual = fname
+    tr.lean_fn = lean_name(fname)
+    tr.lty["fuel"] = "Nat"            # the extra parameter of functions with `while` loops
     tr.is_classmethod = is_classmethod
     tr.classes = set(n.name for n in tree.body if isinstance(n, ast.ClassDef))
     tr.imports_sqrt = any(isinstance(n, ast.ImportFrom) and n.module == "math" and any(
@@ -1323,7 +1354,7 @@ def translate(repo, rel, fname, ptypes, ret, done=None):
     if tr.uses_fuel:
         sig.append("(fuel : Nat)")
     assigns_state = any(tr_assigns_attr(n) for n in ast.walk(fn))
-    return ("/-- generated from `%s:%s` -/\ndef %s %s : %s :=\n%s\n" % (
+    return ("\n".join(tr.aux + [""])[:-1 if not tr.aux else None] + "/-- generated from `%s:%s` -/\ndef %s %s : %s :=\n%s\n" % (
         rel, fname, lean_name(fname), " ".join(sig), rty, body), assigns_state)
 
 
